@@ -381,6 +381,9 @@ func (e *SpecEnv) eval(x Expr) TV {
 		a, b = e.unify(a, b)
 		return TV{T: fmt.Sprintf("(ite %s %s %s)", cnd.T, a.T, b.T), Ty: a.Ty, Sort: a.Sort}
 	case *EQuant:
+		if x.Mapof {
+			return e.evalMapof(x)
+		}
 		n := e.child()
 		var binds, guards []string
 		for _, qv := range x.Vars {
@@ -1460,3 +1463,56 @@ func (e *SpecEnv) addrSafe(sel *ESel) (l *Loc, err error) {
 }
 
 func stripParens(x Expr) Expr { return x }
+
+var defNameRe = regexp.MustCompile(`[A-Za-z_][A-Za-z0-9_.]*![0-9]+`)
+var boundNameRe = regexp.MustCompile(`q_[A-Za-z0-9_]+![0-9]+`)
+
+// evalMapof: `mapof x T :: e` is the total map x -> e as an SMT array. It is named by a constant that is defined by one
+// quantified axiom (select m x) = e; the same body text (same heap versions, same locals) gets the same constant, so
+// that two evaluations in states that agree on what e reads denote the same map syntactically.
+func (e *SpecEnv) evalMapof(x *EQuant) TV {
+	c := e.C
+	if len(x.Vars) != 1 {
+		efail("mapof binds exactly one variable")
+	}
+	qv := x.Vars[0]
+	ty, sort := e.resolveType(qv.Type)
+	n := e.child()
+	bv := "mo!" + qv.Name
+	n.Vars[qv.Name] = TV{T: bv, Ty: ty, Sort: sort}
+	n.markBound(qv.Name)
+	body := n.eval(x.Body)
+	if body.Loc != nil && body.T == "" {
+		body = n.locTerm(body)
+	}
+	if boundNameRe.MatchString(body.T) {
+		efail("mapof body mentions a variable bound by an enclosing quantifier")
+	}
+	// names introduced by path-local define-funs are replaced by what they stand for: the defining axiom is global
+	for depth := 0; depth < 64; depth++ {
+		changed := false
+		body.T = defNameRe.ReplaceAllStringFunc(body.T, func(w string) string {
+			if d, ok := c.defs[w]; ok {
+				changed = true
+				return d
+			}
+			return w
+		})
+		if !changed {
+			break
+		}
+	}
+	key := sort + "|" + body.Sort + "|" + body.T
+	if c.mapofMemo == nil {
+		c.mapofMemo = map[string]string{}
+	}
+	name, ok := c.mapofMemo[key]
+	asort := fmt.Sprintf("(Array %s %s)", sort, body.Sort)
+	if !ok {
+		name = c.fresh("mapof")
+		c.declare(name, asort)
+		c.mapofMemo[key] = name
+		c.mapofDefs = append(c.mapofDefs, fmt.Sprintf("(assert (forall ((%s %s)) (! (= (select %s %s) %s) :pattern ((select %s %s)))))", bv, sort, name, bv, body.T, name, bv))
+	}
+	return specTV(name, asort)
+}
